@@ -495,6 +495,9 @@ def classify(case):
     return labs
 
 
+SANITIZE = True        # thorough tier: reduced pass against an ASan build of the extensions
+SANITIZE_SCALE = 0.03
+
 SUBCHECKS = [
     Subcheck("fixed", fixed_cases, check_fixed, classify, quick=7500, thorough=100000, journal=True, shards=8),
     Subcheck("nperbin", nper_cases, check_nper, classify, quick=4500, thorough=60000, journal=True),
